@@ -377,6 +377,8 @@ def task_stack(which, stack_spec, extra_spec, how, doc="entry"):
         try:
             got, exp = drv(t, stack_spec, extra_spec, how)
         except Exception as ex:  # noqa
+            from pysym.harness import guard_repo_exception
+            guard_repo_exception(ex)
             return {"input": [t, stack_spec, extra_spec, how], "observed": f"raised {type(ex).__name__}: {ex}", "expected": "composition"}
         if got == exp:
             return None
@@ -417,6 +419,8 @@ def task_repeat():
         try:
             got, exp = drv_repeat(t)
         except Exception as ex:  # noqa
+            from pysym.harness import guard_repo_exception
+            guard_repo_exception(ex)
             return {"input": t, "observed": f"raised {type(ex).__name__}: {ex}", "expected": "independent calls"}
         if got == exp:
             return None
@@ -454,6 +458,8 @@ def task_splice(kind):
         try:
             got, shape, n = drv_splice(t, kind)
         except Exception as ex:  # noqa
+            from pysym.harness import guard_repo_exception
+            guard_repo_exception(ex)
             return {"input": [t, kind], "observed": f"raised {type(ex).__name__}: {ex}", "expected": "splice or TypeError"}
         if got == expect(shape):
             return None
@@ -487,6 +493,8 @@ def task_spliceall():
         try:
             got, shape = drv_spliceall(t, tg, kd)
         except Exception as ex:  # noqa
+            from pysym.harness import guard_repo_exception
+            guard_repo_exception(ex)
             return {"input": [t, tg, kd], "observed": f"raised {type(ex).__name__}: {ex}", "expected": "splice or TypeError"}
         if got == expect_all(shape, tg, kd):
             return None
